@@ -350,7 +350,7 @@ class Runner:
         if self.ctxprog is None:
             self.ctx.violation(cls, {"id": tc["id"], "opts": unit.opts}, observed, expected, what)
             return
-        prog = assemble(self.ctxprog, [tc], self.lits)
+        prog = assemble(self.ctxprog, [tc], self.lits, with_struct=lambda x: self.with_struct(unit, x))
         keep = {}
         for d in tc["defs"]:
             keep.setdefault(d["file"] - 1, set()).add(d["d"]["name"])
@@ -709,9 +709,9 @@ def run(ctx, args):
         def pick(shapes):
             d2 = [s for s in shapes if json.dumps(s).count('"v"') >= 2]
             rnd.shuffle(d2)
-            return d2[:260]
+            return d2[:int(os.environ.get("C06_DEV_D2", "260"))]
         cases2, lits2, ctxprog2 = gen_universe(ctx, 2, pick, "ConstsGen[d=2 sample]")
-        cases2 = [c for c in cases2 if c["form"] != "c"]
+        cases2 = [c for c in cases2 if c["depth"] == 2]
         vlib.log("universe d=2 (sampled shapes): %d cases" % len(cases2))
         units2 = []
         per = (len(cases2) + len(CONFIGS) - 1) // len(CONFIGS)
